@@ -150,10 +150,11 @@ Theorem gql_limit_before_order_pre_refuted : exists st q,
 Proof. exact gql_limit_before_order_pre_refuted_l. Qed.
 Print Assumptions gql_limit_before_order_pre_refuted.
 
-Theorem gql_limit_before_distinct_refuted : exists st q,
-  k6_gql_limit_first LGql q = true /\ plan_rows st (gql_plan_of q) <> answer st q /\ plan_rows st (cypher_plan_of q) = answer st q.
-Proof. exact gql_limit_before_distinct_refuted_l. Qed.
-Print Assumptions gql_limit_before_distinct_refuted.
+Theorem gql_limit_before_distinct_pre_refuted : exists st q,
+  k6_gql_limit_first LGql q = true /\ plan_rows st (gql_plan_pre_distinct_of q) <> answer st q /\
+  plan_rows st (gql_plan_of q) = answer st q /\ plan_rows st (cypher_plan_of q) = answer st q.
+Proof. exact gql_limit_before_distinct_pre_refuted_l. Qed.
+Print Assumptions gql_limit_before_distinct_pre_refuted.
 
 Theorem gremlin_dedup_refuted : exists st q,
   k14_gremlin_dedup LGremlin q = true /\ plan_rows st w_k14_gremlin_plan <> answer st q /\ plan_rows st (gql_plan_of q) = answer st q.
